@@ -28,7 +28,12 @@
    int()); blanks directly inside the parentheses of ENDPTS=( ... ); a last line without line
    terminator, or other line-break characters than LF / CR LF; molecules that state the same
    ordered atom pair on two bond lines ([om_keys]: the reader keeps one bond per ordered pair, the
-   later type wins at the earlier place -- see WriterProofs.ex_duplicate_bond). *)
+   later type wins at the earlier place -- see WriterProofs.ex_duplicate_bond).
+
+   Rejected by the reader, hence excluded by okM: a bond line that joins an atom to itself
+   ([om_noloop]; a star bond with the attached atom among its endpoints included) and a negative
+   stated mass / radical ([am_nonneg]); both conditions are necessary -- every rendering of such a
+   molecule is rejected (ex_rejected below, WriterProofs.ex_self_bond). *)
 From Coq Require Import String Lia Arith.
 Require Import Base Mol Text Molfile V3000 Writer WriterProofs.
 Require V2000.
@@ -98,7 +103,8 @@ Definition sym_ok (a : atomM) : Prop :=
 
 Record atom_okM (a : atomM) : Prop := {
   am_sym : sym_ok a;
-  am_x : coord_tok (a_x a); am_y : coord_tok (a_y a); am_z : coord_tok (a_z a) }.
+  am_x : coord_tok (a_x a); am_y : coord_tok (a_y a); am_z : coord_tok (a_z a);
+  am_nonneg : (0 <= a_mass a)%Z /\ (0 <= a_rad a)%Z }.   (* the reader rejects a negative MASS= / RAD= *)
 
 Definition entry_okM (e : option atomM) : Prop := match e with Some a => atom_okM a | None => True end.
 
@@ -115,7 +121,9 @@ Definition bond_keys (b : bondM) : list (nat * nat) :=
 Record okM (M : molM) : Prop := {
   om_entries : Forall entry_okM (m_entries M);
   om_bonds : Forall (bond_okM M) (m_bonds M);
-  om_keys : NoDup (flat_map bond_keys (m_bonds M)) }.
+  om_keys : NoDup (flat_map bond_keys (m_bonds M));
+  om_noloop : forall u, ~ In (u, u) (flat_map bond_keys (m_bonds M)) }.   (* no bond from an atom to itself:
+                                                                            the reader rejects such a line *)
 
 (* ------------------------------------------------------------------------------------ *)
 (* 2. rendering choices                                                                   *)
@@ -524,6 +532,17 @@ Proof.
   - reflexivity.
 Qed.
 
+(* the reader's "negative value" test looks at the last occurrence: it never fires when the stated
+   value is not negative *)
+Lemma hits_not_negative : forall q v l, (0 <= v)%Z -> last_negative (hits q v l) = false.
+Proof.
+  intros q v l H. unfold last_negative, hits. rewrite <- map_rev.
+  destruct (rev (filter (is_p q) l)); cbn [map]; [reflexivity|apply Z.ltb_ge; exact H].
+Qed.
+
+Lemma iso_of_nonneg : forall s, (0 <= snd (iso_of s))%Z.
+Proof. intro s. unfold iso_of. destruct (text_eqb s (t "D")); [|destruct (text_eqb s (t "T"))]; cbn [snd]; lia. Qed.
+
 (* ------------------------------------------------------------------------------------ *)
 (* 6. one atom line                                                                       *)
 (* ------------------------------------------------------------------------------------ *)
@@ -609,7 +628,7 @@ Lemma prop_values_atom_line : forall key c a,
   prop_values key (atom_line_toks c a)
   = prop_values key (map (rtok (a_chg a) (a_rad a) (a_mass a)) (ec_tail c)).
 Proof.
-  intros key c a Hk [Hs Hx Hy Hz] Ha. pose proof (sym_ok_facts a Hs) as F.
+  intros key c a Hk [Hs Hx Hy Hz _] Ha. pose proof (sym_ok_facts a Hs) as F.
   unfold atom_line_toks, tokl, entry_toks. cbn [app].
   rewrite prop_values_skip by (apply M_not_a_key, Hk).
   rewrite prop_values_skip by (apply V30_not_a_key, Hk).
@@ -639,15 +658,15 @@ Lemma parse_atom_line_toks : forall c a,
   atom_okM a -> stated_ok c a ->
   parse_atom_line (atom_line_toks c a) = ok (Some (exp_atom (ec_idx c) a)).
 Proof.
-  intros c a Hok [Ht [Ha [Hc [Hr Hm]]]]. pose proof Hok as [Hs [_ Hx] [_ Hy] [_ Hz]].
-  pose proof (sym_ok_facts a Hs) as F.
+  intros c a Hok [Ht [Ha [Hc [Hr Hm]]]]. pose proof Hok as [Hs [_ Hx] [_ Hy] [_ Hz] [Hmn Hrn]].
+  pose proof (sym_ok_facts a Hs) as F. pose proof (iso_of_nonneg (a_sym a)) as Hiso.
   unfold parse_atom_line.
   change (nth_tok 2 (atom_line_toks c a)) with (ok (tZ (ec_idx c))). cbn [bind ok].
   rewrite int_of_tZ. cbn [bind ok].
   change (nth_tok 3 (atom_line_toks c a)) with (ok (a_sym a)). cbn [bind ok].
   rewrite (sF_not_star _ F), (sF_iso _ F).
   unfold exp_atom. destruct (sF_zn _ F) as [z Hzn]. pose proof (sF_mass _ F) as Hmass.
-  destruct (iso_of (a_sym a)) as [sym iso]. cbn [fst snd] in Hzn, Hmass.
+  destruct (iso_of (a_sym a)) as [sym iso]. cbn [fst snd] in Hzn, Hmass, Hiso.
   rewrite Hzn. cbn [of_opt bind ok opt_default].
   change (nth_tok 4 (atom_line_toks c a)) with (ok (a_x a)).
   change (nth_tok 5 (atom_line_toks c a)) with (ok (a_y a)).
@@ -660,9 +679,13 @@ Proof.
   destruct (Z.eqb_spec iso 0) as [E|E].
   - rewrite (prop_values_atom_line (t "MASS") c a) by (try assumption; cbn; auto).
     rewrite (prop_values_tail_mass _ _ _ _ Ht). cbn [bind ok].
+    rewrite (hits_not_negative PMass _ _ Hmn), (hits_not_negative PRad _ _ Hrn). cbn [orb].
     rewrite (hits_last PChg _ _ eq_refl Hc), (hits_last PRad _ _ eq_refl Hr), (hits_last PMass _ _ eq_refl Hm).
     reflexivity.
   - cbn [bind ok].
+    rewrite (hits_not_negative PRad _ _ Hrn).
+    replace (last_negative [iso]) with false by (symmetry; unfold last_negative; cbn [rev app]; apply Z.ltb_ge; exact Hiso).
+    cbn [orb].
     rewrite (hits_last PChg _ _ eq_refl Hc), (hits_last PRad _ _ eq_refl Hr), last_nonzero_one.
     reflexivity.
 Qed.
@@ -1166,18 +1189,27 @@ Proof.
   cbn [exp_bond bond_keys]. rewrite !map_map. reflexivity.
 Qed.
 
+Lemma existsb_selfkey_false : forall tuples : list (Z * Z),
+  Forall (fun k => fst k <> snd k) tuples -> existsb (fun k => Z.eqb (fst k) (snd k)) tuples = false.
+Proof.
+  intros tuples H. induction H as [|k r Hk _ IH]; [reflexivity|]. cbn [existsb]. rewrite IH, orb_false_r.
+  apply Z.eqb_neq, Hk.
+Qed.
+
 Lemma parse_bonds_render : forall I CB St bs k acc,
   (forall j b, nth_error bs j = Some b -> bond_okC I (CB (k + j)) b /\ bond_mem St I b) ->
+  Forall (fun key : Z * Z => fst key <> snd key) (map fst (flat_map (exp_bond I) bs)) ->
   NoDup (map fst acc ++ map fst (flat_map (exp_bond I) bs)) ->
   parse_bonds (map (fun p => tokl (snd p)) (bond_tlines I CB k bs)) St acc
   = ok (acc ++ flat_map (exp_bond I) bs).
 Proof.
-  intros I CB St bs. induction bs as [|b bs IH]; intros k acc Hc Hnd.
+  intros I CB St bs. induction bs as [|b bs IH]; intros k acc Hc Hnl Hnd.
   - cbn [bond_tlines map parse_bonds flat_map]. rewrite app_nil_r. reflexivity.
   - assert (Hc0 : bond_okC I (CB k) b /\ bond_mem St I b) by (rewrite <- (Nat.add_0_r k); apply Hc; reflexivity).
     assert (Hc' : forall j b', nth_error bs j = Some b' -> bond_okC I (CB (S k + j)) b' /\ bond_mem St I b').
     { intros j b' H. rewrite Nat.add_succ_comm. apply Hc. exact H. }
     destruct Hc0 as [Hok Hmem].
+    cbn [flat_map] in Hnl. rewrite map_app in Hnl. apply Forall_app in Hnl. destruct Hnl as [Hnl0 Hnl'].
     cbn [flat_map] in Hnd. rewrite map_app, app_assoc in Hnd.
     cbn [bond_tlines map parse_bonds snd flat_map].
     set (c := CB k) in *.
@@ -1187,9 +1219,10 @@ Proof.
       change (nth_tok 5 (tokl (bond_toks_of I c (Bond ty u v)))) with (ok (tZ (I v))).
       change (nth_tok 3 (tokl (bond_toks_of I c (Bond ty u v)))) with (ok (tZ ty)).
       cbn [bind ok]. rewrite !int_of_tZ. cbn [bind ok]. cbv zeta.
-      rewrite Hm1, Hm2. cbn [andb bind ok fold_left].
+      rewrite Hm1, Hm2. cbn [andb bind ok].
+      cbn [exp_bond map fst] in Hnl0. rewrite (existsb_selfkey_false _ Hnl0). cbn [fold_left].
       rewrite (dict_set_fresh _ _ bkey_eqb _ ty acc bkey_eqb_eq).
-      * rewrite (IH (S k) _ Hc').
+      * rewrite (IH (S k) _ Hc' Hnl').
         -- cbn [exp_bond]. rewrite <- app_assoc. reflexivity.
         -- rewrite map_app. exact Hnd.
       * intro Hin. cbn [exp_bond map fst] in Hnd. rewrite <- app_assoc in Hnd. cbn [app] in Hnd.
@@ -1212,9 +1245,12 @@ Proof.
       assert (Hnd1 : NoDup (map fst acc ++ map (fun e => ((I w - 1)%Z, (I e - 1)%Z)) es)).
       { cbn [exp_bond] in Hnd. rewrite map_map in Hnd. cbn [fst] in Hnd.
         apply NoDup_app_left in Hnd. exact Hnd. }
+      assert (Hnl1 : existsb (fun k0 : Z * Z => Z.eqb (fst k0) (snd k0)) (map (fun e => ((I w - 1)%Z, (I e - 1)%Z)) es) = false).
+      { apply existsb_selfkey_false. cbn [exp_bond] in Hnl0. rewrite map_map in Hnl0. cbn [fst] in Hnl0. exact Hnl0. }
       destruct Hor as [[-> ->]|[-> ->]]; rewrite Hm1, Hm2; cbn [andb]; rewrite Hse; cbn [bind ok];
+        rewrite Hnl1;
         (rewrite fold_dict_fresh by exact Hnd1);
-        (rewrite (IH (S k) _ Hc') by (rewrite map_app; cbn [exp_bond] in Hnd; rewrite !map_map in *; cbn [fst] in *; exact Hnd));
+        (rewrite (IH (S k) _ Hc' Hnl') by (rewrite map_app; cbn [exp_bond] in Hnd; rewrite !map_map in *; cbn [fst] in *; exact Hnd));
         cbn [exp_bond]; rewrite map_map, <- app_assoc; reflexivity.
 Qed.
 
@@ -1347,7 +1383,7 @@ Theorem read_v3000_render : forall M ch, okM M -> okch M ch ->
   read_v3000 (render3000 M ch) = ok (expected (ch_index ch) M).
 Proof.
   intros M ch HM Hch. unfold read_v3000. rewrite (tokenize_lines_render M ch HM Hch). cbn [bind ok].
-  destruct HM as [Hent Hbonds Hkeys]. destruct Hch as [Hidx [Hcg Hcd] Hce Hcb Htr].
+  destruct HM as [Hent Hbonds Hkeys Hnoloop]. destruct Hch as [Hidx [Hcg Hcd] Hce Hcb Htr].
   set (I := ch_index ch) in *.
   set (n := length (m_entries M)) in *.
   set (TT := map tokenize (map logical (ch_trailer ch))).
@@ -1442,6 +1478,11 @@ Proof.
         - destruct Hb' as [Hs [Hw _]]. split.
           + apply memZ_in, star_key_in, Hs.
           + apply memZ_not_in, (atom_key_not_star M I Hidx), Hw. }
+    2:{ rewrite exp_bond_fst. apply Forall_forall. intros key Hkey. apply in_map_iff in Hkey.
+        destruct Hkey as [[u v] [<- Huv]]. cbn [fst snd]. intros E.
+        destruct (bond_keys_atoms M _ u v Hbonds Huv) as [Hu Hv].
+        assert (u = v) by (apply (index_inj I n _ _ Hidx); try (apply is_atom_lt; assumption); lia).
+        subst v. exact (Hnoloop u Huv). }
     2:{ cbn [map app]. exact Hkeys'. }
     cbn [bind ok app].
     set (bonds' := flat_map (exp_bond I) (b :: bs)).
@@ -1626,15 +1667,17 @@ Example exM_ok : okM exM.
 Proof.
   constructor.
   - repeat (apply Forall_cons; [|]); try apply Forall_nil; cbn [entry_okM]; try exact Logic.I.
-    + constructor; [left; eexists; vm_compute; reflexivity|apply coord_tok_check; vm_compute; reflexivity..].
-    + constructor; [right; split; [left|]; reflexivity|apply coord_tok_check; vm_compute; reflexivity..].
-    + constructor; [left; eexists; vm_compute; reflexivity|apply coord_tok_check; vm_compute; reflexivity..].
+    + constructor; [left; eexists; vm_compute; reflexivity|apply coord_tok_check; vm_compute; reflexivity..|cbn; lia].
+    + constructor; [right; split; [left|]; reflexivity|apply coord_tok_check; vm_compute; reflexivity..|cbn; lia].
+    + constructor; [left; eexists; vm_compute; reflexivity|apply coord_tok_check; vm_compute; reflexivity..|cbn; lia].
   - repeat (apply Forall_cons; [|]); try apply Forall_nil; cbn [bond_okM].
     + split; eexists; reflexivity.
     + split; eexists; reflexivity.
     + split; [reflexivity|]. split; [eexists; reflexivity|].
       repeat (apply Forall_cons; [eexists; reflexivity|]). apply Forall_nil.
   - cbn. repeat (apply NoDup_cons; [cbn; intuition discriminate|]). apply NoDup_nil.
+  - intros u H. cbn in H. decompose [or] H; try contradiction;
+      match goal with E : (_, _) = (u, u) |- _ => injection E as E1 E2; rewrite <- E1 in E2; discriminate E2 end.
 Qed.
 
 Example ex_ch_ok : okch exM ex_ch.
@@ -1685,9 +1728,23 @@ Example ex_repeated_index :
               (ch_counts_extra ex_ch) (ch_begin_atom ex_ch) (ch_end_atom ex_ch) (ch_begin_bond ex_ch) (ch_end_bond ex_ch)
               (fun p => match p with 2 => mkEntryC 7 (mkLayout 0 [] 0 []) (t "0") [PRad; PMass] | _ => ch_entry ex_ch p end)
               (ch_bond ex_ch) (ch_trailer ex_ch) in
-  option_map (fun r => length (fst r)) (match read_v3000 (render3000 exM ch) with inr r => Some r | inl _ => None end)
-  = Some 2.
-Proof. vm_compute. reflexivity. Qed.
+  option_map (fun r => length (fst r))
+             (match read_v3000 (render3000 (mkMolM (m_entries exM) [Bond 1 0 1]) ch) with inr r => Some r | inl _ => None end)
+  = Some 2
+  (* with all the bonds of exM the file is rejected: the bond 12-7 has become a bond 7-7 *)
+  /\ read_v3000 (render3000 exM ch) = inl EParser.
+Proof. vm_compute. split; reflexivity. Qed.
+
+(* om_noloop and am_nonneg are needed: exM with a bond from atom 2 to itself, with MASS=-1 on its
+   first atom, with RAD=-1 on its third atom -- the same rendering choices, every file rejected *)
+Example ex_rejected :
+  read_v3000 (render3000 (mkMolM (m_entries exM) [Bond 1 0 1; Bond 1 2 2]) ex_ch) = inl EParser /\
+  read_v3000 (render3000 (mkMolM (Some (mkAtomM (t "N") 1 0 (-1) (t "1.25") (t "-0.5") (t "0")) :: tl (m_entries exM))
+                                 (m_bonds exM)) ex_ch) = inl EParser /\
+  read_v3000 (render3000 (mkMolM [nth 0 (m_entries exM) None; nth 1 (m_entries exM) None;
+                                  Some (mkAtomM (t "C") 0 (-1) 13 (t "-1.0000") (t "2") (t "0.0")); None]
+                                 (m_bonds exM)) ex_ch) = inl EParser.
+Proof. vm_compute. repeat split. Qed.
 
 (* ------------------------------------------------------------------------------------ *)
 (* 13. the file as one string: LF or CRLF after every line, then the entry point          *)
